@@ -181,6 +181,8 @@ b("B68", SLATE, "\t\tif pub_nonces.len() == 0 {\n\t\t\treturn Err(Error::Commit(
 b("B69", OWNER, "\t\tif c.late_lock_args.is_some() {\n\t\t\treturn Err(Error::GenericError(format!(\n\t\t\t\t\"A pending transaction with id {} already exists\",", "\t\tif let Some(_) = c.late_lock_args {\n\t\t\treturn Err(Error::GenericError(format!(\n\t\t\t\t\"A pending transaction with id {} already exists\",", "invoice under a late-lock id: test written as if-let")
 b("B70", V4BIN, "\t\tif self.coms.is_some() {\n\t\t\tstatus |= 0x01\n\t\t};", "\t\tmatch self.coms {\n\t\t\tSome(_) => status |= 0x01,\n\t\t\tNone => {}\n\t\t};", "coms bit set in a match on the option")
 
+b("B71", TX, "\twallet.store_tx(&format!(\"{}\", tx.tx_slate_id.unwrap()), slate.tx_or_err()?)?;\n", "\tlet stored = wallet.store_tx(&format!(\"{}\", tx.tx_slate_id.unwrap()), slate.tx_or_err()?);\n\tstored?;\n", "stored-tx write: result bound to a local, then propagated")
+
 
 def _apply(mu, repo_copy):
     p = os.path.join(repo_copy, mu["file"])
